@@ -13,7 +13,8 @@ Record obs := {
   o_regs : list (N * reg);
   o_awgs : list awg_st;           (* index = awg id *)
   o_dacs : list dac_st;           (* index = dac id *)
-  o_cblog : list N
+  o_cblog : list N;
+  o_vollog : list (N * N * list N)      (* update_parameters calls: (name, parameter tag, generators reached) *)
 }.
 
 Inductive case :=
@@ -38,7 +39,6 @@ Definition alist_equiv {V} (e : V -> V -> bool) (a b : list (N * V)) : bool :=
 Definition set_equiv {A} (e : A -> A -> bool) (a b : list A) : bool :=
   Nat.eqb (length a) (length b) && forallb (fun x => existsb (e x) b) a && forallb (fun x => existsb (e x) a) b.
 
-Definition sch_full_eqb (a b : sch) : bool := sch_eqb a b && N.eqb (s_trafo a) (s_trafo b).
 Definition mask_full_eqb (a b : mask) : bool :=
   N.eqb (m_oid a) (m_oid b) && N.eqb (m_dac a) (m_dac b) && N.eqb (m_name a) (m_name b).
 Definition setN_equiv (a b : list N) : bool := set_equiv N.eqb a b.
@@ -59,13 +59,16 @@ Definition obs_state_eqb (a b : obs) : bool :=
   && alist_equiv (set_equiv mask_full_eqb) (o_mmap a) (o_mmap b)
   && alist_equiv reg_eqb (o_regs a) (o_regs b)
   && list_eqb awg_st_eqb (o_awgs a) (o_awgs b) && list_eqb dac_st_eqb (o_dacs a) (o_dacs b)
-  && list_eqb N.eqb (o_cblog a) (o_cblog b).
+  && list_eqb N.eqb (o_cblog a) (o_cblog b)
+  && list_eqb (fun x y => N.eqb (fst (fst x)) (fst (fst y)) && N.eqb (snd (fst x)) (snd (fst y))
+                          && setN_equiv (snd x) (snd y)) (o_vollog a) (o_vollog b).
 
 Definition Nseq (n : nat) : list N := map N.of_nat (seq 0 n).
 
 Definition view (nawgs ndacs : nat) (e : option err) (st : state) : obs :=
   {| o_err := e; o_chmap := chmap st; o_mmap := mmap st; o_regs := regs st;
-     o_awgs := map (awg_of st) (Nseq nawgs); o_dacs := map (dac_of st) (Nseq ndacs); o_cblog := cblog st |}.
+     o_awgs := map (awg_of st) (Nseq nawgs); o_dacs := map (dac_of st) (Nseq ndacs); o_cblog := cblog st;
+     o_vollog := vollog st |}.
 
 Fixpoint corr_steps (dm : dims) (na nd : nat) (st : state) (steps : list (op * obs)) : bool :=
   match steps with
@@ -127,7 +130,26 @@ Definition post_ok (o : op) (prev ob : obs) : bool :=
                         end
          | None => false
          end
+  | OUpdateParams name ptag =>
+      (* exactly the generators the program uses (current wiring) were handed the parameters, each once *)
+      alist_equiv reg_same (o_regs prev) (o_regs ob)
+      && match lookup name (o_regs ob), o_vollog ob with
+         | Some r, (n, t, got) :: rest =>
+             N.eqb n name && N.eqb t ptag && nodupN got
+             && forallb (fun a => Bool.eqb (memN a got) (uses_awg (o_chmap ob) (r_chans r) a))
+                        (Nseq (length (o_awgs ob)) ++ got)
+             && Nat.eqb (length rest) (length (o_vollog prev))
+         | _, _ => false
+         end
   | _ => alist_equiv reg_same (o_regs prev) (o_regs ob)
+  end.
+
+(* the two call logs only grow by the operation that is allowed to call *)
+Definition logs_ok (o : op) (prev ob : obs) : bool :=
+  match o with
+  | ORun _ => Nat.eqb (length (o_vollog ob)) (length (o_vollog prev))
+  | OUpdateParams _ _ => list_eqb N.eqb (o_cblog ob) (o_cblog prev)
+  | _ => list_eqb N.eqb (o_cblog ob) (o_cblog prev) && Nat.eqb (length (o_vollog ob)) (length (o_vollog prev))
   end.
 
 (* The property quantifies over histories of calls that returned normally.  A call that raised and left every
@@ -139,7 +161,7 @@ Fixpoint spec_steps (dm : dims) (prev : obs) (steps : list (op * obs)) : bool :=
   | (o, ob) :: rest =>
       match o_err ob with
       | Some _ => if obs_state_eqb prev ob then spec_steps dm ob rest else true
-      | None => post_ok o prev ob && exact_obs dm ob && spec_steps dm ob rest
+      | None => post_ok o prev ob && logs_ok o prev ob && exact_obs dm ob && spec_steps dm ob rest
       end
   end.
 
